@@ -409,6 +409,19 @@ def m_gc_vec_eq(ex, st, callee, args):
     return m_slice_eq(ex, st, "<[%s] as PartialEq>::%s" % (m_.group(1), "ne" if callee.endswith("::ne") else "eq"), refs)
 
 
+def m_vec_as_ptr(ex, st, callee, args):
+    """Vec::as_ptr: the address of the buffer.  Two vectors have the same buffer address iff they are the same vector - except that
+    every vector that never allocated (empty, capacity 0) returns the same dangling address; whether an EMPTY vector has capacity is
+    not part of this value model, so both answers are explored"""
+    ref, v = _vec_at(ex, st, args[0])
+    own = Ref(ref.cell, ref.path)
+    if v.fields:
+        return [(None, own)]
+    st.cells.setdefault(("dangling-buffer",), Adt("()", None, []))
+    b = z3.Bool("never_allocated_%s" % re.sub(r"[^A-Za-z0-9]+", "_", repr((ref.cell, ref.path))))     # one choice per vector
+    return [(b, Ref(("dangling-buffer",), ())), (z3.Not(b), own)]
+
+
 def m_gc_ptr_eq(ex, st, callee, args):
     a_, b_ = _gc(ex, st, args[0]), _gc(ex, st, args[1])
     ra, rb = a_.fields[0], b_.fields[0]
@@ -613,6 +626,7 @@ def install(m):
         (r"^<Option<String> as PartialEq>::(eq|ne)$", m_option_string_eq),
         (r"^Option::<String>::as_deref$", m_option_string_as_deref),
         (r"^Gc::<.*>::ptr_eq$", m_gc_ptr_eq),
+        (r"^Vec::<.*>::as_ptr$|^(core::)?slice::<impl \[.*\]>::as_ptr$", m_vec_as_ptr),
         (r"^<Gc<.*> as (AsRef|Borrow)<.*>>::(as_ref|borrow)$", m_gc_as_ref),
         (r"^Vec::<.*>::as_slice$", m_as_slice),
         (r"^<std::slice::Iter<'_, .*> as Iterator>::zip::<", m_zip),
